@@ -59,6 +59,7 @@ pub fn dispatch(req: &Value) -> Value {
         "lossy_edits" => op_lossy_edits(req),
         "codec" => op_codec(req),
         "codec_parse" => op_codec_parse(req),
+        "copyright_lookup" => op_copyright_lookup(req),
         "pgp" => match debian_control::pgp::strip_pgp_signature(&s(req, "s")) {
             Ok((p, sig)) => json!({"ok": true, "payload": p, "sig": sig}),
             Err(e) => json!({"ok": false, "err": format!("{:?}", e)}),
@@ -661,4 +662,46 @@ fn op_typed_doc(req: &Value) -> Value {
     let l1 = view(t);
     let l2 = match r["text2"].as_str() { Some(t2) => view(t2), None => Value::Null };
     json!({"typed": r, "lossless": l1, "lossless2": l2})
+}
+
+
+/// C17: look a path up in a machine-readable copyright file through both readers
+fn op_copyright_lookup(req: &Value) -> Value {
+    use debian_copyright::License;
+    let text = s(req, "s");
+    let path = s(req, "path");
+    let lic = |l: &License| -> Value { match l {
+        License::Name(n) => json!({"kind": "Name", "name": n, "text": Value::Null}),
+        License::Text(t) => json!({"kind": "Text", "name": Value::Null, "text": t}),
+        License::Named(n, t) => json!({"kind": "Named", "name": n, "text": t}),
+    } };
+    let t1 = text.clone(); let p1 = path.clone();
+    let lossless = guarded(move || {
+        let c = match debian_copyright::lossless::Copyright::from_str(&t1) {
+            Ok(c) => c,
+            Err(e) => return json!({"ok": false, "err": format!("{:?}", e), "not_machine_readable": matches!(e, debian_copyright::lossless::Error::NotMachineReadable)}),
+        };
+        let pth = std::path::Path::new(&p1);
+        let files: Vec<Value> = c.iter_files().map(|f| json!({"comment": f.comment(), "files": f.files(), "matches": f.matches(pth)})).collect();
+        let found = c.find_files(pth).map(|f| json!({"comment": f.comment()}));
+        let license = c.find_license_for_file(pth).map(|l| lic(&l));
+        let licenses: Vec<Value> = c.iter_licenses().map(|l| json!({"name": l.name(), "text": l.text()})).collect();
+        json!({"ok": true, "files": files, "found": found, "license": license, "licenses": licenses})
+    });
+    let lossy = guarded(move || {
+        let c = match debian_copyright::lossy::Copyright::from_str(&text) {
+            Ok(c) => c,
+            Err(e) => return json!({"ok": false, "err": e}),
+        };
+        let pth = std::path::Path::new(&path);
+        let comment_of = |f: &debian_copyright::lossy::FilesParagraph| -> Value {
+            let p: deb822_lossless::lossy::Paragraph = f.to_string().parse().unwrap();
+            match p.get("Comment") { Some(c) => json!(c), None => Value::Null }
+        };
+        let files: Vec<Value> = c.files.iter().map(|f| json!({"comment": comment_of(f), "matches": f.matches(pth)})).collect();
+        let found = c.find_files(pth).map(|f| json!({"comment": comment_of(f)}));
+        let license = c.find_license_for_file(pth).map(lic);
+        json!({"ok": true, "files": files, "found": found, "license": license})
+    });
+    json!({"lossless": lossless, "lossy": lossy})
 }
